@@ -19,6 +19,9 @@ R07d unconditional delivery (call model of the emitter verified): the machine tr
      (on_runstate_change, on_start, on_stop, on_tick, scope/block events) reaches its fan-out loop over self._listeners
      on every path from entry (no early return, no "already sent" filter - a remembered last event is not reset at run
      boundaries, so the first Pause of the next run would be swallowed and the clocks keep counting while Paused).
+R07e a run starts with its clocks running: every Tag subclass whose on_tick is gated by a pause flag that on_runstate_change sets
+     (Block Time, Scope Time) clears that flag in on_start - a run stopped while paused never sees the UNPAUSE signal, and the
+     next run's clocks would stay frozen although the system is Running.
 """
 from __future__ import annotations
 
@@ -33,6 +36,11 @@ EXPLANATION = __doc__
 
 
 def run(ctx) -> None:
+    _run_main(ctx)
+    _r07e(ctx)
+
+
+def _run_main(ctx) -> None:
     prog, res = ctx.prog, ctx.res
     for r, d in [("R07a", "Process/Run Time increments guarded by the run state; only 0.0 resets elsewhere"),
                  ("R07b", "Block/Scope Time gate closed whenever the state is Paused or Holding"),
@@ -257,3 +265,30 @@ def run(ctx) -> None:
                      "Block/Scope Time gate misses a Pause/Hold/Start/Stop signal and keeps counting while the run is not Running", p)
     if n_d < 4:
         raise AnchorError(f"only {n_d} clock-relevant emit_* methods found (floor 4)")
+
+
+def _r07e(ctx):
+    ctx.rule("R07e", "clock tags clear their pause flag when a run starts")
+    prog = ctx.prog
+    tagc = prog.cls("openpectus.lang.exec.tags:Tag")
+    n = 0
+    for c in tagc.all_subclasses():
+        if c.module.is_test:
+            continue
+        rs, tk, st = c.methods.get("on_runstate_change"), c.methods.get("on_tick"), c.methods.get("on_start")
+        if rs is None or tk is None:
+            continue
+        flags = {t.attr for t, v, s_ in assigned_attrs(rs.node) if isinstance(v, ast.Constant) and v.value is True
+                 and isinstance(t.value, ast.Name) and t.value.id == "self"}
+        gate = {x.attr for x in ast.walk(tk.node) if isinstance(x, ast.Attribute) and x.attr in flags}
+        for fl in sorted(gate):
+            n += 1
+            inst = f"{c.name}.on_start clears self.{fl}"
+            ctx.analysed(rs)
+            if st is not None and any(t.attr == fl and isinstance(v, ast.Constant) and v.value is False for t, v, s_ in assigned_attrs(st.node)):
+                ctx.ok("R07e", inst)
+            else:
+                ctx.fail("R07e", st or tk, (st or tk).node, inst, f"self.{fl} stops the clock in on_tick and is only cleared by the UNPAUSE signal: after "
+                         "Pause, Stop, Start the new run is Running with this clock frozen at 0 - thresholds on it never pass")
+    if n == 0:
+        raise AnchorError("R07e: no clock tag with a pause gate found")
